@@ -142,9 +142,10 @@ class TreeInfo(productmd.common.MetadataBase):
         :type main_variant: str
         """
         self.validate()
+        # serialize before the destination is opened (see MetadataBase.dump)
+        parser = self._get_parser()
+        self.serialize(parser, main_variant=main_variant)
         with productmd.common.open_file_obj(f, "w") as f:
-            parser = self._get_parser()
-            self.serialize(parser, main_variant=main_variant)
             self.build_file(parser, f)
 
 
